@@ -39,7 +39,23 @@ REQUIRED_COUNTERS = ['on_threshold_eq', 'on_threshold_noeq', 'decimal_threshold'
                      'alternative', 'bracketer', 'bracketer_property', 'openlist_jump', 'openlist_fill',
                      'openlist_overflow', 'openlist_precedence', 'openlist_no_threshold', 'openlist_tie',
                      'quota_by_name', 'quota_by_callable', 'quota_fraction_one', 'quota_fraction_half',
-                     'take_higher', 'quota_selector', 'rel_boundary_5pct']
+                     'take_higher', 'quota_selector', 'rel_boundary_5pct',
+                     # generator audit (harness/GENERATOR_CHECKLIST.md)
+                     'float_threshold', 'float_dyadic', 'float_nondyadic', 'float_counts', 'float_jump_fraction',
+                     'float_quota_fraction', 'bigden_on_threshold', 'decimal7_on_threshold', 'bigden_jump_fraction',
+                     'bigden_quota_fraction', 'decimal_quota_fraction', 'quota_fraction_other',
+                     'falsy_threshold:i', 'falsy_threshold:F', 'falsy_threshold:D', 'falsy_threshold:f',
+                     'falsy_jump_fraction:i', 'falsy_jump_fraction:F', 'falsy_jump_fraction:D',
+                     'falsy_quota_fraction:i', 'falsy_quota_fraction:F', 'falsy_quota_fraction:D',
+                     'beyond_2_53', 'beyond_1e28', 'huge_on_boundary', 'huge_one_off_boundary', 'decimal_context_inexact',
+                     'names:int0', 'names:empty0', 'names:person',
+                     'tie3_draw2', 'two_zero_vote', 'prev_absent', 'list_member_without_votes', 'off_list',
+                     'more_seats_than_list', 'called_twice', 'other_config_first', 'after_exception',
+                     'property_name_nondefault', 'sens:accept_equal', 'sens:coalition_evaluators',
+                     'sens:property_evaluators', 'sens:property_default', 'sens:property_name', 'sens:partials',
+                     'sens:prev_gain_selector', 'sens:qs_quota_function', 'sens:qs_accept_equal',
+                     'sens:qs_on_more_over_quota', 'sens:jump_fraction', 'sens:quota_function', 'sens:quota_fraction',
+                     'sens:take_higher', 'sens:list_precedence']
 NAMES = Names()
 QUOTAS = ['hare', 'hare_rounded', 'droop', 'hagenbach_bischoff', 'hagenbach_bischoff_ceil',
           'hagenbach_bischoff_rounded', 'imperiali']
@@ -1029,10 +1045,10 @@ def boundary_values(rng, V, on, m):
     return vals + extra + split_total(rng, rest, k)
 
 
-def gen_rel_boundary(rng):
+def gen_rel_boundary(rng, huge=False):
     kind = rng.random()
     eq = rng.random() < 0.5
-    if kind < 0.08:
+    if kind < 0.08 and not huge:
         # integer thresholds 0 and 1
         t = Fraction(rng.choice([0, 1]))
         m = rng.randint(1, 5)
@@ -1046,6 +1062,8 @@ def gen_rel_boundary(rng):
     else:
         p, q = rng.choice(NICE)
         k = rng.randint(1, 12) * rng.choice([1, 1, 1, 1, 10, 1000, 10 ** 20])
+        if huge:
+            k = rng.randint(1, 3) * rng.choice(HUGE_K)
         V, on = q * k, p * k
         m = rng.randint(1, 7)
         vals = boundary_values(rng, V, on, m)
@@ -1190,11 +1208,13 @@ def gen_seatless(rng, force=None):
                  'props': props, '_styles': styles, '_tags': tags}, **extra)
 
 
-def gen_quota_selector(rng):
+def gen_quota_selector(rng, huge=False):
     n = rng.randint(1, 5)
     m = rng.randint(1, 7)
     qn = rng.choice(QUOTAS)
     V = rng.randint(1, 30) * rng.choice([1, 1, n, n + 1, n + 2, 10])
+    if huge:
+        V = rng.randint(1, 30) * rng.choice([1, n, n + 1, n + 2]) * rng.choice(HUGE_K)
     q = quota_value(qn, V, n)
     tags = ['quota_selector']
     if rng.random() < 0.75 and q.denominator == 1 and 0 <= q <= V:
@@ -1387,7 +1407,9 @@ def gen_falsy_openlist(rng):
     if rng.random() < 0.5 or c['quota'] is None:
         c['jump_fraction'], c['_jftype'] = '0', rng.choice(['i', 'F', 'D'])
         if 'F' in c['_types'] and c['_jftype'] == 'D':
-            c['_jftype'] = 'F'
+            c['_jftype'] = 'F'                # Fraction * Decimal is a TypeError in Python
+        if 'D' in c['_types'] and c['_jftype'] == 'F':
+            c['_jftype'] = 'D'                # Decimal * Fraction too
     else:
         c['quota_fraction'], c['_qftype'] = '0', rng.choice(['i', 'F', 'D'] if c['quota'] in INT_QUOTAS else ['i', 'F'])
     if c['votes'] and rng.random() < 0.7:
@@ -1419,7 +1441,7 @@ def gen_struct(rng):
         c['_tags'] = ['rel_boundary', 'struct']
         return c
     c = gen_openlist(rng)
-    m = len(c['list'])
+    m = max(list(c['list']) + [i for i, _ in c['votes']]) + 1          # fresh ids
     if kind == 'zeros_open':
         c['votes'] += [[m, '0'], [m + 1, '0']]
         c['_types'] += [c['_types'][0] if c['_types'] else 'i'] * 2
@@ -1478,7 +1500,6 @@ def gen_tiebreak(rng):
     tags = ['tiebreak']
     if rng.random() < 0.05 and m > 1:
         clist = clist[:-1]
-        tags.append('off_list')
     votes, types = enc_votes(pairs)
     case = {'op': 'tiebreak', 'votes': votes, '_types': types, 'n': n, 'list': clist, 'inner': 'plurality',
             'accept_equal': True, '_tags': tags}
@@ -1657,43 +1678,156 @@ def _exhaustive2():
                                'inner': qn, '_quota_mode': 'name', 'accept_equal': eq, '_tags': ['exhaustive', 'tiebreak']}
 
 
+def _num_tags(tags, value_str, tt, what, on_boundary):
+    """numeric type / size of one parameter `what` (threshold, jump_fraction, quota_fraction)"""
+    f = Fraction(value_str)
+    if tt == 'f':
+        tags.append('float_' + what)
+        if f.denominator & (f.denominator - 1) == 0 and f.denominator <= 2 ** 10:
+            tags.append('float_dyadic')
+        else:
+            tags.append('float_nondyadic')
+    if f == 0:
+        tags.append('falsy_' + what)
+        tags.append('falsy_' + what + ':' + tt)
+    if f.denominator > 10 ** 6 and tt != 'f':
+        tags.append('bigden_' + what)
+        if on_boundary:
+            tags.append('bigden_on_threshold')
+            if tt == 'D':
+                tags.append('decimal7_on_threshold')
+
+
+def _size_tags(tags, votes, thr):
+    """magnitude of the counts and how close somebody is to the boundary"""
+    tot = sum(votes.values())
+    if tot > 2 ** 53:
+        tags.append('beyond_2_53')
+    if tot >= 10 ** 28:
+        tags.append('beyond_1e28')
+    if thr is not None and tot > 2 ** 53:
+        if any(v == thr for v in votes.values()):
+            tags.append('huge_on_boundary')
+        if any(abs(v - thr) == 1 for v in votes.values()):
+            tags.append('huge_one_off_boundary')
+    if sum(1 for v in votes.values() if v == 0) >= 2:
+        tags.append('two_zero_vote')
+
+
+def _sens(tags, case, spec, param, default, key=None):
+    """tag sens:<param> when the non-default value of a constructor parameter changes what the property determines"""
+    key = key or param
+    if case.get(key) == default:
+        return
+    other = dict(case)
+    other[key] = default
+    try:
+        if spec(other) != spec(case):
+            tags.append('sens:' + param)
+    except (SpecErr, ZeroDivisionError):
+        pass
+
+
 def _posthoc_tags(c):
     """counters reflect what a case actually exercises"""
     tags = c['_tags']
     op = c['op']
 
     def ttype_tag(tt):
-        tags.append({'D': 'decimal_threshold', 'i': 'int_threshold', 'F': 'fraction_threshold'}[tt])
+        tags.append({'D': 'decimal_threshold', 'i': 'int_threshold', 'F': 'fraction_threshold', 'f': 'float_threshold'}[tt])
 
     def on_tag(hit, eq):
         if hit:
             tags.append('on_threshold_eq' if eq else 'on_threshold_noeq')
+
+    if c.get('_warm'):
+        tags.append('called_twice')
+    if c.get('_warm_cfg'):
+        tags.append('other_config_first')
+    if any(t == 'f' for t in c.get('_types') or []):
+        tags.append('float_counts')
 
     if op in ('abs_threshold', 'rel_threshold'):
         votes = fvotes(c['votes'])
         t = Fraction(c['threshold'])
         ttype_tag(c.get('_ttype', 'F'))
         if op == 'abs_threshold':
-            on_tag(any(v == t for v in votes.values()), c['accept_equal'])
+            hit = any(v == t for v in votes.values())
+            on_tag(hit, c['accept_equal'])
+            _num_tags(tags, c['threshold'], c.get('_ttype', 'F'), 'threshold', hit)
+            _size_tags(tags, votes, t)
+            if hit and not c['accept_equal']:
+                tags.append('sens:accept_equal')
         else:
             tot = sum(votes.values())
-            on_tag(tot != 0 and any(v / tot == t for v in votes.values()), c['accept_equal'])
+            hit = tot != 0 and any(v / tot == t for v in votes.values())
+            on_tag(hit, c['accept_equal'])
+            _num_tags(tags, c['threshold'], c.get('_ttype', 'F'), 'threshold', hit)
+            _size_tags(tags, votes, t * tot)
+            if hit and not c['accept_equal']:
+                tags.append('sens:accept_equal')
     elif op == 'seatless':
         for leaf in sel_leaves(c['sel']):
             ttype_tag(leaf.get('ty', 'F'))
+        votes = fvotes(c['votes'])
+        prev = fvotes(c['prev']) if c.get('prev') is not None else {}
+        members = dict(map(tuple, c.get('members') or []))
+        props = dict(map(tuple, c.get('props') or []))
+        kinds = sel_kinds(c['sel'])
+        if 'prev' in kinds and any(i not in votes for i in prev):
+            tags.append('prev_absent')
+        if sum(1 for v in votes.values() if v == 0) >= 2:
+            tags.append('two_zero_vote')
+        if c.get('_prop_name') == 'region':
+            tags.append('property_name_nondefault')
+        sel = c['sel']
+        pv = prev if sel_accepts_prev(sel) else None
+
+        def ev(sel2, props2=props):
+            try:
+                return sorted(spec_eval(sel2, votes, pv, members, props2)[0])
+            except SpecErr as e:
+                return str(e)
+        base = ev(sel)
+        if sel['k'] == 'coalition' and sel['evs'] and ev(dict(sel, evs=[])) != base:
+            tags.append('sens:coalition_evaluators')
+        if sel['k'] == 'property':
+            if sel['evs'] and ev(dict(sel, evs=[])) != base:
+                tags.append('sens:property_evaluators')
+            if sel['default'] is not None and ev(dict(sel, default=None)) != base:
+                tags.append('sens:property_default')
+            if c.get('_prop_name') and ev(sel, {i: decoy_prop(props.get(i)) for i in votes}) != base:
+                tags.append('sens:property_name')
+        if sel['k'] == 'alt' and len(sel['parts']) > 1 and ev(dict(sel, parts=sel['parts'][:1])) != base:
+            tags.append('sens:partials')
+        if sel['k'] == 'prev' and pv is not None and ev(sel['inner']) != base:
+            tags.append('sens:prev_gain_selector')
     elif op == 'quota_selector':
         votes = fvotes(c['votes'])
         q = quota_value(c['quota'], sum(votes.values()), c['n'])
         on_tag(any(v == q for v in votes.values()), c['accept_equal'])
         tags.append('quota_by_callable' if c.get('_quota_mode') == 'callable' else 'quota_by_name')
+        _size_tags(tags, votes, q)
+        _sens(tags, c, spec_quota_selector, 'qs_quota_function', 'droop', 'quota')
+        _sens(tags, c, spec_quota_selector, 'qs_accept_equal', True, 'accept_equal')
+        _sens(tags, c, spec_quota_selector, 'qs_on_more_over_quota', 'error', 'on_more')
     elif op == 'openlist':
         votes = fvotes(c['votes'])
         thr = open_threshold(c, sum(votes.values()))
+        if not py_arith_exact(c):
+            tags.append('decimal_context_inexact')
+        if any(i not in votes for i in c['list']):
+            tags.append('list_member_without_votes')
+        if any(i not in c['list'] for i in votes):
+            tags.append('off_list')
+        if c['n'] > len(c['list']):
+            tags.append('more_seats_than_list')
+        hit = thr is not None and any(v == thr for v in votes.values())
         if thr is None:
             tags.append('openlist_no_threshold')
         else:
             J = [x for x, v in votes.items() if passes(v, thr, c['accept_equal'])]
-            on_tag(any(v == thr for v in votes.values()), c['accept_equal'])
+            on_tag(hit, c['accept_equal'])
             if J:
                 tags.append('openlist_jump')
             if len(J) > c['n']:
@@ -1706,24 +1840,59 @@ def _posthoc_tags(c):
                 ttype_tag(c.get('_jftype', 'F'))
             if c.get('jump_fraction') is not None and c.get('quota') is not None and c['take_higher']:
                 tags.append('take_higher')
+        _size_tags(tags, votes, thr)
+        if c.get('jump_fraction') is not None:
+            _num_tags(tags, c['jump_fraction'], c.get('_jftype', 'F'), 'jump_fraction', hit)
         if c.get('quota') is not None:
             if c['quota'].startswith('const:'):
                 tags.append('quota_constant')
             else:
                 tags.append('quota_by_callable' if c.get('_quota_mode') == 'callable' else 'quota_by_name')
-            tags.append('quota_fraction_one' if Fraction(c['quota_fraction']) == 1 else 'quota_fraction_half')
+            qf = Fraction(c['quota_fraction'])
+            tags.append('quota_fraction_one' if qf == 1 else 'quota_fraction_half' if qf == Fraction(1, 2) else 'quota_fraction_other')
+            _num_tags(tags, c['quota_fraction'], c.get('_qftype', 'F'), 'quota_fraction', hit)
+            if c.get('_qftype') == 'D':
+                tags.append('decimal_quota_fraction')
+        if py_arith_exact(c):
+            _sens(tags, c, spec_openlist, 'jump_fraction', None)
+            _sens(tags, c, spec_openlist, 'quota_function', None, 'quota')
+            if c.get('quota') is not None:
+                _sens(tags, c, spec_openlist, 'quota_fraction', '1')
+            _sens(tags, c, spec_openlist, 'take_higher', False)
+            _sens(tags, c, spec_openlist, 'accept_equal', False)
+            _sens(tags, c, spec_openlist, 'list_precedence', False)
+        if c.get('_warm'):
+            try:
+                w = dict(c)
+                w.update(c['_warm'])
+                if isinstance(spec_openlist(w), dict):
+                    tags.append('after_exception')
+            except Exception:       # noqa
+                pass
     elif op == 'tiebreak':
         votes = fvotes(c['votes'])
+        if any(i not in votes for i in c['list']):
+            tags.append('list_member_without_votes')
+        if any(i not in c['list'] for i in votes):
+            tags.append('off_list')
         if c['inner'] != 'plurality':
             q = quota_value(c['inner'], sum(votes.values()), c['n'])
             votes = {x: v for x, v in votes.items() if passes(v, q, c['accept_equal'])}
         if len(votes) > c['n']:
             tau = sorted(votes.values(), reverse=True)[c['n'] - 1]
-            if sum(1 for v in votes.values() if v >= tau) > c['n']:
+            level = sum(1 for v in votes.values() if v == tau)
+            above = sum(1 for v in votes.values() if v > tau)
+            if above + level > c['n']:
                 tags.append('openlist_tie')
+                if level >= 3 and c['n'] - above >= 2:
+                    tags.append('tie3_draw2')
     elif op == 'break_by_list':
         if any(isinstance(x, dict) for x in c['elected']):
             tags.append('break_tie')
+        for x in c['elected']:
+            if isinstance(x, dict) and len(x['tie']) >= 3 and sum(1 for y in c['elected'] if y == x) >= 2:
+                tags.append('tie3_draw2')
+                break
     elif op == 'alt_ranks':
         pass
     return c
